@@ -1284,6 +1284,24 @@ func (x *Exec) freshnessOf(st *State, r smt.T) smt.T {
 		case *types.Slice:
 			fs = append(fs, smt.Not(smt.Eq(r, sArr(b.t))))
 		}
+		// one level into the objects the parameters point to: a new object is none of the buffers / objects their fields hold now
+		if pt, ok := b.typ.Underlying().(*types.Pointer); ok {
+			if stt, ok := pt.Elem().Underlying().(*types.Struct); ok {
+				for i := 0; i < stt.NumFields(); i++ {
+					ft := stt.Field(i).Type()
+					if isTypeParam(ft) || isAggregate(ft) {
+						continue
+					}
+					hn, hs := x.fieldHeap(pt.Elem(), i)
+					switch ft.Underlying().(type) {
+					case *types.Slice:
+						fs = append(fs, smt.Not(smt.Eq(r, sArr(smt.Select(x.heap(st, hn, hs), b.t)))))
+					case *types.Pointer, *types.Interface, *types.Map, *types.Chan:
+						fs = append(fs, smt.Not(smt.Eq(r, smt.Select(x.heap(st, hn, hs), b.t))))
+					}
+				}
+			}
+		}
 	}
 	return smt.And(fs...)
 }
